@@ -3,6 +3,7 @@ package c20
 import (
 	"fmt"
 	"strconv"
+	"strings"
 	"testing"
 
 	"pgregory.net/rapid"
@@ -299,8 +300,21 @@ func runPair(sc Scenario) string {
 	return ""
 }
 
+// runSafe turns a panic that escapes a composition whose stages do not panic into a finding.
+func runSafe(sc Scenario) (msg string) {
+	defer func() {
+		if r := recover(); r != nil {
+			if strings.HasPrefix(fmt.Sprintf("%T", r), "*rapid.") || strings.HasPrefix(fmt.Sprintf("%T", r), "rapid.") {
+				panic(r)
+			}
+			msg = fmt.Sprintf("Pipe%d (%s family): the composed function panicked although no stage does: %v", sc.N, sc.Family, r)
+		}
+	}()
+	return Run(sc)
+}
+
 func check(t interface{ Fatalf(string, ...any) }, sc Scenario) {
-	msg := Run(sc)
+	msg := runSafe(sc)
 	if msg == "" {
 		msg = runPair(sc)
 	}
@@ -350,7 +364,7 @@ func TestReplay(t *testing.T) {
 	if err != nil {
 		t.Fatalf("bad replay file: %v", err)
 	}
-	if msg := Run(sc); msg != "" {
+	if msg := runSafe(sc); msg != "" {
 		t.Fatalf("%s", msg)
 	}
 }
